@@ -1,5 +1,886 @@
-(* TreeProofs.v — lemmas about Model/Tree.v *)
+(* TreeProofs.v — lemmas about Model/Tree.v (profile tree: insert, merge, clone; merge pool). *)
 From Pyro Require Import Model.Base Model.Tree.
+From Coq Require Import Permutation ZifyN ZifyNat ZifyBool.
+Local Ltac Zify.zify_post_hook ::= Z.div_mod_to_equations.
+
+(* ------------------------------------------------------------------------------------------ *)
+(* bytes.Compare is a strict total order                                                       *)
+
+Lemma bcmp_refl a : bcmp a a = Eq.
+Proof. induction a as [|x a IH]; cbn; [reflexivity|]. rewrite N.compare_refl. exact IH. Qed.
+
+Lemma bcmp_eq a b : bcmp a b = Eq -> a = b.
+Proof.
+  revert b; induction a as [|x a IH]; intros [|y b]; cbn; try discriminate; [reflexivity|].
+  destruct (N.compare_spec x y) as [->|H|H]; try discriminate.
+  intros E. f_equal. apply IH, E.
+Qed.
+
+Lemma bcmp_antisym a b : bcmp b a = CompOpp (bcmp a b).
+Proof.
+  revert b; induction a as [|x a IH]; intros [|y b]; cbn; try reflexivity.
+  rewrite (N.compare_antisym x y). destruct (N.compare x y); cbn; auto.
+Qed.
+
+Lemma bcmp_lt_gt a b : bcmp a b = Lt <-> bcmp b a = Gt.
+Proof. rewrite (bcmp_antisym a b). destruct (bcmp a b); cbn; split; congruence. Qed.
+
+Lemma bcmp_lt_trans a b c : bcmp a b = Lt -> bcmp b c = Lt -> bcmp a c = Lt.
+Proof.
+  revert b c; induction a as [|x a IH]; intros [|y b] [|z c]; cbn; try discriminate; auto.
+  destruct (N.compare_spec x y) as [->|H|H]; try discriminate.
+  - destruct (N.compare_spec y z) as [->|H'|H']; try discriminate; auto.
+    intros; eapply IH; eauto.
+  - intros _. destruct (N.compare_spec y z) as [->|H'|H']; try discriminate.
+    + intros _. destruct (N.compare_spec x z); try lia; auto.
+    + intros _. destruct (N.compare_spec x z); try lia; auto.
+Qed.
+
+Lemma beqb_true a b : beqb a b = true <-> a = b.
+Proof.
+  unfold beqb. split.
+  - destruct (bcmp a b) eqn:E; try discriminate. intros _. apply bcmp_eq, E.
+  - intros ->. rewrite bcmp_refl. reflexivity.
+Qed.
+
+Lemma beqb_refl a : beqb a a = true.
+Proof. apply beqb_true; reflexivity. Qed.
+
+Lemma beqb_false_lt a b : bcmp a b = Lt -> beqb a b = false.
+Proof. unfold beqb. intros ->. reflexivity. Qed.
+Lemma beqb_false_gt a b : bcmp a b = Gt -> beqb a b = false.
+Proof. unfold beqb. intros ->. reflexivity. Qed.
+Lemma beqb_sym a b : beqb a b = beqb b a.
+Proof. unfold beqb. rewrite (bcmp_antisym a b). destruct (bcmp a b); reflexivity. Qed.
+
+Lemma bltb_true a b : bltb a b = true <-> bcmp a b = Lt.
+Proof. unfold bltb. destruct (bcmp a b); split; congruence. Qed.
+
+(* ------------------------------------------------------------------------------------------ *)
+(* induction principle for the nested tree type                                                *)
+
+Section tnode_ind'.
+  Variable P : tnode -> Prop.
+  Hypothesis Hnode : forall n s t ch, Forall P ch -> P (TNode n s t ch).
+  Fixpoint tnode_ind' (t : tnode) : P t :=
+    match t with
+    | TNode n s tot ch =>
+        Hnode n s tot ch
+          ((fix go (l : list tnode) : Forall P l :=
+              match l with
+              | [] => Forall_nil P
+              | c :: l' => Forall_cons c (tnode_ind' c) (go l')
+              end) ch)
+    end.
+End tnode_ind'.
+
+(* ------------------------------------------------------------------------------------------ *)
+(* sorted children lists                                                                       *)
+
+(* every name in [ch] is greater than [n] *)
+Definition all_gt (n : bytes) (ch : list tnode) : Prop := Forall (fun c => bcmp n (t_name c) = Lt) ch.
+
+Lemma sorted_names_cons c ch :
+  sorted_names (c :: ch) = true <-> all_gt (t_name c) ch /\ sorted_names ch = true.
+Proof.
+  revert c; induction ch as [|c' ch IH]; intros c.
+  - cbn. split; [intros _; split; [constructor|reflexivity]|reflexivity].
+  - change (sorted_names (c :: c' :: ch)) with (bltb (t_name c) (t_name c') && sorted_names (c' :: ch)).
+    rewrite andb_true_iff, bltb_true. split.
+    + intros [H1 H2]. split; [|exact H2].
+      constructor; [exact H1|].
+      apply IH in H2. destruct H2 as [H2 _].
+      eapply Forall_impl; [|exact H2]. cbn. intros x Hx. eapply bcmp_lt_trans; eauto.
+    + intros [H1 H2]. inversion H1; subst. split; assumption.
+Qed.
+
+Lemma all_gt_find n ch : all_gt n ch -> t_find n ch = None.
+Proof.
+  induction 1 as [|c ch H _ IH]; cbn; [reflexivity|].
+  rewrite beqb_sym, (beqb_false_lt _ _ H). exact IH.
+Qed.
+
+Lemma all_gt_trans a b ch : bcmp a b = Lt -> all_gt b ch -> all_gt a ch.
+Proof. intros H. apply Forall_impl. intros c. apply bcmp_lt_trans, H. Qed.
+
+Lemma t_find_name l ch c : t_find l ch = Some c -> t_name c = l.
+Proof.
+  induction ch as [|x ch IH]; cbn; [discriminate|].
+  destruct (beqb (t_name x) l) eqn:E; [|exact IH].
+  intros [= <-]. apply beqb_true, E.
+Qed.
+
+Lemma t_find_in l ch c : t_find l ch = Some c -> In c ch.
+Proof.
+  induction ch as [|x ch IH]; cbn; [discriminate|].
+  destruct (beqb (t_name x) l); [intros [= <-]; auto|auto].
+Qed.
+
+(* ------------------------------------------------------------------------------------------ *)
+(* t_upd (treeNode.insert + update of the found child) on sorted lists                          *)
+
+Definition keeps_name (f : tnode -> tnode) : Prop := forall c, t_name (f c) = t_name c.
+
+Lemma t_upd_all_gt n m f ch :
+  keeps_name f -> bcmp n m = Lt -> all_gt n ch -> all_gt n (t_upd m f ch).
+Proof.
+  intros Hf Hnm. induction 1 as [|c ch H Hall IH]; cbn.
+  - constructor; [|constructor]. rewrite Hf. exact Hnm.
+  - destruct (bcmp (t_name c) m) eqn:E.
+    + constructor; [rewrite Hf; exact H|exact Hall].
+    + constructor; [exact H|exact IH].
+    + constructor; [rewrite Hf; exact Hnm|]. constructor; assumption.
+Qed.
+
+Lemma t_upd_sorted m f ch :
+  keeps_name f -> sorted_names ch = true -> sorted_names (t_upd m f ch) = true.
+Proof.
+  intros Hf. induction ch as [|c ch IH]; intros Hs.
+  - reflexivity.
+  - cbn [t_upd]. apply sorted_names_cons in Hs. destruct Hs as [Hgt Hs].
+    destruct (bcmp (t_name c) m) eqn:E.
+    + apply sorted_names_cons. rewrite Hf. split; assumption.
+    + apply sorted_names_cons. split; [|apply IH, Hs].
+      apply t_upd_all_gt; assumption.
+    + apply sorted_names_cons. rewrite Hf. cbn [t_new t_name]. split.
+      * apply bcmp_lt_gt in E. constructor; [exact E|]. eapply all_gt_trans; eauto.
+      * apply sorted_names_cons. split; assumption.
+Qed.
+
+Definition find_or_new (m : bytes) (ch : list tnode) : tnode :=
+  match t_find m ch with Some c => c | None => t_new m end.
+
+Lemma t_find_upd m f l ch :
+  keeps_name f -> sorted_names ch = true ->
+  t_find l (t_upd m f ch) = if beqb m l then Some (f (find_or_new m ch)) else t_find l ch.
+Proof.
+  intros Hf. unfold find_or_new. induction ch as [|c ch IH]; intros Hs.
+  - cbn. rewrite Hf. cbn. destruct (beqb m l); reflexivity.
+  - apply sorted_names_cons in Hs. destruct Hs as [Hgt Hs]. cbn [t_upd].
+    destruct (bcmp (t_name c) m) eqn:E.
+    + apply bcmp_eq in E. subst m. cbn [t_find]. rewrite Hf, beqb_refl.
+      destruct (beqb (t_name c) l); reflexivity.
+    + cbn [t_find]. rewrite (beqb_false_lt _ _ E). rewrite (IH Hs).
+      destruct (beqb m l) eqn:El; [|reflexivity].
+      apply beqb_true in El. subst l. rewrite (beqb_false_lt _ _ E). reflexivity.
+    + cbn [t_find]. rewrite Hf. cbn [t_new t_name].
+      rewrite (beqb_false_gt _ _ E).
+      assert (Hn : t_find m ch = None).
+      { apply all_gt_find. eapply all_gt_trans; [|exact Hgt]. apply bcmp_lt_gt, E. }
+      rewrite Hn. destruct (beqb m l); reflexivity.
+Qed.
+
+Lemma t_upd_Forall (P : tnode -> Prop) m f ch :
+  Forall P ch -> (forall c, P c -> P (f c)) -> P (t_new m) -> Forall P (t_upd m f ch).
+Proof.
+  intros H Hf Hn. induction H as [|c ch Hc Hall IH]; cbn.
+  - constructor; [apply Hf, Hn|constructor].
+  - destruct (bcmp (t_name c) m); constructor; auto.
+Qed.
+
+(* ------------------------------------------------------------------------------------------ *)
+(* Tree.Merge                                                                                  *)
+
+Definition merge_ch (sch dch : list tnode) : list tnode :=
+  fold_left (fun dch sc => t_upd (t_name sc) (fun dc => t_merge dc sc) dch) sch dch.
+
+Lemma t_merge_eq d s :
+  t_merge d s = TNode (t_name d) (t_self d + t_self s) (t_total d + t_total s)
+                      (merge_ch (t_ch s) (t_ch d)).
+Proof.
+  destruct d as [dn ds dt dch], s as [sn ss st sch]. cbn [t_merge t_name t_self t_total t_ch].
+  reflexivity.
+Qed.
+
+Lemma t_merge_name d s : t_name (t_merge d s) = t_name d.
+Proof. rewrite t_merge_eq. reflexivity. Qed.
+
+Lemma merge_keeps_name s : keeps_name (fun d => t_merge d s).
+Proof. intros d. apply t_merge_name. Qed.
+
+Lemma t_wfb_eq t : t_wfb t = sorted_names (t_ch t) && forallb t_wfb (t_ch t).
+Proof. destruct t; reflexivity. Qed.
+
+Lemma t_wfb_iff t : t_wfb t = true <-> sorted_names (t_ch t) = true /\ Forall (fun c => t_wfb c = true) (t_ch t).
+Proof. rewrite t_wfb_eq, andb_true_iff, forallb_forall, Forall_forall. reflexivity. Qed.
+
+Lemma t_new_wfb n : t_wfb (t_new n) = true.
+Proof. reflexivity. Qed.
+
+Lemma merge_ch_wf sch dch :
+  Forall (fun s => forall d, t_wfb d = true -> t_wfb s = true -> t_wfb (t_merge d s) = true) sch ->
+  Forall (fun s => t_wfb s = true) sch ->
+  sorted_names dch = true -> Forall (fun c => t_wfb c = true) dch ->
+  sorted_names (merge_ch sch dch) = true /\ Forall (fun c => t_wfb c = true) (merge_ch sch dch).
+Proof.
+  intros HIH. revert dch. induction HIH as [|sc sch Hsc _ IH]; intros dch Hws Hs Hw.
+  - cbn. split; assumption.
+  - inversion Hws as [|? ? Hwsc Hws']; subst. unfold merge_ch. cbn [fold_left]. apply IH.
+    + exact Hws'.
+    + apply t_upd_sorted; [apply merge_keeps_name|exact Hs].
+    + apply t_upd_Forall; [exact Hw| |].
+      * intros c Hc. apply Hsc; assumption.
+      * apply t_new_wfb.
+Qed.
+
+Lemma t_merge_wfb : forall s d, t_wfb d = true -> t_wfb s = true -> t_wfb (t_merge d s) = true.
+Proof.
+  induction s as [sn ss st sch IH] using tnode_ind'. intros d Hd Hs.
+  rewrite t_merge_eq. apply t_wfb_iff. cbn [t_ch].
+  apply t_wfb_iff in Hd. destruct Hd as [Hd1 Hd2].
+  apply t_wfb_iff in Hs. cbn [t_ch] in Hs. destruct Hs as [Hs1 Hs2].
+  apply merge_ch_wf; assumption.
+Qed.
+
+(* value of the merged children list at a name *)
+Lemma merge_ch_find l sch dch :
+  sorted_names sch = true -> sorted_names dch = true ->
+  t_find l (merge_ch sch dch) =
+    match t_find l sch with
+    | None => t_find l dch
+    | Some sc => Some (t_merge (find_or_new l dch) sc)
+    end.
+Proof.
+  revert dch. induction sch as [|sc sch IH]; intros dch Hss Hsd; [reflexivity|].
+  apply sorted_names_cons in Hss. destruct Hss as [Hgt Hss].
+  unfold merge_ch. cbn [fold_left]. fold (merge_ch sch (t_upd (t_name sc) (fun dc => t_merge dc sc) dch)).
+  rewrite IH; [|exact Hss|apply t_upd_sorted; [apply merge_keeps_name|exact Hsd]].
+  cbn [t_find]. destruct (beqb (t_name sc) l) eqn:E.
+  - apply beqb_true in E. subst l. rewrite (all_gt_find _ _ Hgt).
+    rewrite t_find_upd; [|apply merge_keeps_name|exact Hsd]. rewrite beqb_refl. reflexivity.
+  - destruct (t_find l sch) eqn:F.
+    + unfold find_or_new. rewrite t_find_upd; [|apply merge_keeps_name|exact Hsd]. rewrite E. reflexivity.
+    + rewrite t_find_upd; [|apply merge_keeps_name|exact Hsd]. rewrite E. reflexivity.
+Qed.
+
+(* pointwise sum of (self, total) pairs, None being "stack absent" *)
+Definition oplus (a b : option (N * N)) : option (N * N) :=
+  match a, b with
+  | None, x => x
+  | x, None => x
+  | Some (s1, t1), Some (s2, t2) => Some (s1 + s2, t1 + t2)
+  end.
+
+Lemma oplus_comm a b : oplus a b = oplus b a.
+Proof. destruct a as [[? ?]|], b as [[? ?]|]; cbn; try reflexivity. f_equal. f_equal; lia. Qed.
+Lemma oplus_assoc a b c : oplus (oplus a b) c = oplus a (oplus b c).
+Proof. destruct a as [[? ?]|], b as [[? ?]|], c as [[? ?]|]; cbn; try reflexivity. f_equal. f_equal; lia. Qed.
+Lemma oplus_none_r a : oplus a None = a.
+Proof. destruct a as [[? ?]|]; reflexivity. Qed.
+
+Lemma t_at_new p n : t_at p (t_new n) = match p with [] => Some (0, 0) | _ => None end.
+Proof. destruct p; reflexivity. Qed.
+
+Lemma t_find_wfb l ch c : Forall (fun c => t_wfb c = true) ch -> t_find l ch = Some c -> t_wfb c = true.
+Proof. intros H F. apply t_find_in in F. rewrite Forall_forall in H. auto. Qed.
+
+(* (1) merge adds self and total stack by stack and changes nothing else *)
+Lemma t_merge_at : forall s d p, t_wfb d = true -> t_wfb s = true ->
+  t_at p (t_merge d s) = oplus (t_at p d) (t_at p s).
+Proof.
+  induction s as [sn ss st sch IH] using tnode_ind'. intros d p Hd Hs.
+  rewrite t_merge_eq. destruct p as [|l p].
+  - reflexivity.
+  - cbn [t_at t_ch t_self t_total].
+    apply t_wfb_iff in Hd. destruct Hd as [Hd1 Hd2].
+    apply t_wfb_iff in Hs. cbn [t_ch] in Hs. destruct Hs as [Hs1 Hs2].
+    rewrite merge_ch_find by assumption.
+    destruct (t_find l sch) as [sc|] eqn:Fs.
+    + assert (Hin := t_find_in _ _ _ Fs).
+      rewrite Forall_forall in IH. rewrite (IH sc Hin).
+      * unfold find_or_new. destruct (t_find l (t_ch d)) as [dc|] eqn:Fd; [reflexivity|].
+        rewrite t_at_new. destruct p; [|reflexivity].
+        cbn. destruct sc; cbn. reflexivity.
+      * unfold find_or_new. destruct (t_find l (t_ch d)) as [dc|] eqn:Fd; [|apply t_new_wfb].
+        exact (t_find_wfb _ _ _ Hd2 Fd).
+      * exact (t_find_wfb _ _ _ Hs2 Fs).
+    + destruct (t_find l (t_ch d)); [rewrite oplus_none_r|]; reflexivity.
+Qed.
+
+(* ------------------------------------------------------------------------------------------ *)
+(* (2) extensionality: a well-formed tree is determined by its root name and its values at every
+   path                                                                                         *)
+
+Definition ch_at (l : bytes) (p : list bytes) (ch : list tnode) : option (N * N) :=
+  match t_find l ch with None => None | Some c => t_at p c end.
+
+Lemma t_at_nil t : t_at [] t = Some (t_self t, t_total t).
+Proof. reflexivity. Qed.
+
+Lemma ch_at_head c ch p : ch_at (t_name c) p (c :: ch) = t_at p c.
+Proof. unfold ch_at. cbn. rewrite beqb_refl. reflexivity. Qed.
+
+Lemma ch_at_all_gt l p ch : all_gt l ch -> ch_at l p ch = None.
+Proof. intros H. unfold ch_at. rewrite (all_gt_find _ _ H). reflexivity. Qed.
+
+Definition ext_at (a : tnode) : Prop :=
+  forall b, t_wfb a = true -> t_wfb b = true -> t_name a = t_name b ->
+            (forall p, t_at p a = t_at p b) -> a = b.
+
+Lemma ch_ext ach : Forall ext_at ach -> forall bch,
+  sorted_names ach = true -> sorted_names bch = true ->
+  Forall (fun c => t_wfb c = true) ach -> Forall (fun c => t_wfb c = true) bch ->
+  (forall l p, ch_at l p ach = ch_at l p bch) -> ach = bch.
+Proof.
+  induction 1 as [|c ach Hc _ IH]; intros [|c' bch] Hsa Hsb Hwa Hwb H.
+  - reflexivity.
+  - specialize (H (t_name c') []). rewrite ch_at_head in H. discriminate.
+  - specialize (H (t_name c) []). rewrite ch_at_head in H. discriminate.
+  - apply sorted_names_cons in Hsa. destruct Hsa as [Hga Hsa].
+    apply sorted_names_cons in Hsb. destruct Hsb as [Hgb Hsb].
+    inversion Hwa as [|? ? Hwc Hwa']; subst. inversion Hwb as [|? ? Hwc' Hwb']; subst.
+    destruct (bcmp (t_name c) (t_name c')) eqn:E.
+    + apply bcmp_eq in E.
+      assert (c = c').
+      { apply Hc; try assumption. intros p. specialize (H (t_name c) p).
+        rewrite ch_at_head in H. rewrite E in H. rewrite ch_at_head in H. exact H. }
+      subst c'. f_equal. apply IH; try assumption.
+      intros l p. destruct (beqb (t_name c) l) eqn:El.
+      * apply beqb_true in El. subst l. rewrite !ch_at_all_gt by assumption. reflexivity.
+      * specialize (H l p). unfold ch_at in H. cbn [t_find] in H. rewrite El in H. exact H.
+    + exfalso. specialize (H (t_name c) []). rewrite ch_at_head in H.
+      rewrite ch_at_all_gt in H; [discriminate|].
+      constructor; [exact E|]. eapply all_gt_trans; eauto.
+    + exfalso. apply bcmp_lt_gt in E. specialize (H (t_name c') []). rewrite ch_at_head in H.
+      rewrite ch_at_all_gt in H; [discriminate|].
+      constructor; [exact E|]. eapply all_gt_trans; eauto.
+Qed.
+
+Lemma t_ext : forall a b, t_wfb a = true -> t_wfb b = true -> t_name a = t_name b ->
+  (forall p, t_at p a = t_at p b) -> a = b.
+Proof.
+  induction a as [an as_ at_ ach IH] using tnode_ind'.
+  intros [bn bs bt bch] Ha Hb Hn H. cbn in Hn. subst bn.
+  assert (H0 := H []). cbn in H0. injection H0 as -> ->.
+  f_equal.
+  apply t_wfb_iff in Ha. destruct Ha as [Ha1 Ha2]. apply t_wfb_iff in Hb. destruct Hb as [Hb1 Hb2].
+  cbn [t_ch] in *.
+  apply ch_ext; try assumption.
+  intros l p. exact (H (l :: p)).
+Qed.
+
+Lemma t_merge_comm a b : t_wfb a = true -> t_wfb b = true -> t_name a = t_name b ->
+  t_merge a b = t_merge b a.
+Proof.
+  intros Ha Hb Hn. apply t_ext.
+  - apply t_merge_wfb; assumption.
+  - apply t_merge_wfb; assumption.
+  - rewrite !t_merge_name. exact Hn.
+  - intros p. rewrite !t_merge_at by assumption. apply oplus_comm.
+Qed.
+
+Lemma t_merge_assoc a b c : t_wfb a = true -> t_wfb b = true -> t_wfb c = true ->
+  t_merge (t_merge a b) c = t_merge a (t_merge b c).
+Proof.
+  intros Ha Hb Hc. apply t_ext.
+  - apply t_merge_wfb; [apply t_merge_wfb|]; assumption.
+  - apply t_merge_wfb; [|apply t_merge_wfb]; assumption.
+  - rewrite !t_merge_name. reflexivity.
+  - intros p. rewrite !t_merge_at; try assumption; try (apply t_merge_wfb; assumption).
+    apply oplus_assoc.
+Qed.
+
+(* ------------------------------------------------------------------------------------------ *)
+(* (3) the merge pool: any worker count, any schedule = the serial fold                         *)
+
+Definition osum (l : list (option (N * N))) : option (N * N) := fold_right oplus None l.
+
+Lemma osum_cons x l : osum (x :: l) = oplus x (osum l).
+Proof. reflexivity. Qed.
+
+Lemma osum_app l1 l2 : osum (l1 ++ l2) = oplus (osum l1) (osum l2).
+Proof.
+  induction l1 as [|x l1 IH]; [reflexivity|].
+  cbn [app]. rewrite !osum_cons, IH, oplus_assoc. reflexivity.
+Qed.
+
+Lemma osum_perm l l' : Permutation l l' -> osum l = osum l'.
+Proof.
+  induction 1 as [|x l l' _ IH|x y l|l l' l'' _ IH1 _ IH2]; rewrite ?osum_cons.
+  - reflexivity.
+  - rewrite IH. reflexivity.
+  - rewrite <- !oplus_assoc. rewrite (oplus_comm y x). reflexivity.
+  - congruence.
+Qed.
+
+Definition inW (n : bytes) (t : tnode) : Prop := t_wfb t = true /\ t_name t = n.
+
+Lemma inW_merge n a b : inW n a -> inW n b -> inW n (t_merge a b).
+Proof. intros [Ha Hna] [Hb Hnb]. split; [apply t_merge_wfb; assumption|]. rewrite t_merge_name. exact Hna. Qed.
+
+Lemma fold_merge_inW n rest : forall t, inW n t -> Forall (inW n) rest -> inW n (fold_left t_merge rest t).
+Proof.
+  induction rest as [|r rest IH]; intros t Ht Hr; [exact Ht|].
+  inversion Hr; subst. cbn. apply IH; [apply inW_merge|]; assumption.
+Qed.
+
+Lemma fold_merge_at n p rest : forall t, inW n t -> Forall (inW n) rest ->
+  t_at p (fold_left t_merge rest t) = osum (map (t_at p) (t :: rest)).
+Proof.
+  induction rest as [|r rest IH]; intros t Ht Hr.
+  - cbn. rewrite oplus_none_r. reflexivity.
+  - inversion Hr as [|? ? Hr1 Hr2]; subst. cbn [fold_left]. rewrite IH; [|apply inW_merge; assumption|assumption].
+    cbn [map osum fold_right]. rewrite t_merge_at; [|apply Ht|apply Hr1].
+    rewrite oplus_assoc. reflexivity.
+Qed.
+
+Definition fly_trees (f : list (tnode * tnode)) : list tnode := flat_map (fun j => [fst j; snd j]) f.
+Definition all_trees (s : pool_state) : list tnode := ps_pool s ++ fly_trees (ps_fly s).
+
+Lemma fly_trees_app f g : fly_trees (f ++ g) = fly_trees f ++ fly_trees g.
+Proof. unfold fly_trees. apply flat_map_app. Qed.
+
+Lemma pool_queue_perm fuel conc : forall s, Permutation (all_trees (pool_queue fuel conc s)) (all_trees s).
+Proof.
+  induction fuel as [|fuel IH]; intros s; [reflexivity|].
+  cbn [pool_queue]. destruct (ps_pool s) as [|a [|b rest]] eqn:Ep; try reflexivity.
+  destruct (Nat.ltb (length (ps_fly s)) conc); [|reflexivity].
+  rewrite IH. unfold all_trees. cbn [ps_pool ps_fly]. rewrite Ep, fly_trees_app. cbn [fly_trees flat_map fst snd app].
+  change (a :: b :: rest ++ fly_trees (ps_fly s)) with ([a; b] ++ rest ++ fly_trees (ps_fly s)).
+  rewrite (Permutation_app_comm (fly_trees (ps_fly s)) [a; b]).
+  rewrite app_assoc. rewrite (Permutation_app_comm rest [a; b]). rewrite <- app_assoc. reflexivity.
+Qed.
+
+Lemma remove_nth_perm {A} (d : A) i : forall l, (i < length l)%nat -> Permutation l (nth i l d :: remove_nth i l).
+Proof.
+  induction i as [|i IH]; intros [|x l] Hl; cbn in *; try lia.
+  - reflexivity.
+  - rewrite perm_swap. constructor. apply IH. lia.
+Qed.
+
+Lemma remove_nth_length {A} i : forall l : list A, (i < length l)%nat -> (length (remove_nth i l) + 1 = length l)%nat.
+Proof.
+  induction i as [|i IH]; intros [|x l] Hl; cbn in *; try lia.
+  specialize (IH l). lia.
+Qed.
+
+Definition pool_inv (n : bytes) (tries : list tnode) (s : pool_state) : Prop :=
+  Forall (inW n) (all_trees s) /\
+  forall p, osum (map (t_at p) (all_trees s)) = osum (map (t_at p) tries).
+
+Lemma pool_inv_perm n tries s s' :
+  Permutation (all_trees s') (all_trees s) -> pool_inv n tries s -> pool_inv n tries s'.
+Proof.
+  intros Hp [H1 H2]. split.
+  - eapply Permutation_Forall; [symmetry; exact Hp|exact H1].
+  - intros p. rewrite <- H2. apply osum_perm, Permutation_map, Hp.
+Qed.
+
+Lemma pool_finish_inv n tries c s : pool_inv n tries s -> pool_inv n tries (pool_finish c s).
+Proof.
+  intros Hinv. unfold pool_finish. destruct (ps_fly s) as [|j0 f] eqn:Ef; [exact Hinv|].
+  rewrite <- Ef.
+  set (i := Nat.modulo c (length (ps_fly s))).
+  assert (Hi : (i < length (ps_fly s))%nat).
+  { apply Nat.mod_upper_bound. rewrite Ef. cbn. lia. }
+  set (j := nth i (ps_fly s) j0).
+  assert (Hp : Permutation (all_trees s)
+                 ([fst j; snd j] ++ ps_pool s ++ fly_trees (remove_nth i (ps_fly s)))).
+  { unfold all_trees. rewrite app_assoc. rewrite (Permutation_app_comm [fst j; snd j]).
+    rewrite <- app_assoc. apply Permutation_app_head.
+    change ([fst j; snd j] ++ fly_trees (remove_nth i (ps_fly s))) with (fly_trees (j :: remove_nth i (ps_fly s))).
+    unfold fly_trees. apply Permutation_flat_map. apply remove_nth_perm, Hi. }
+  destruct Hinv as [H1 H2]. split.
+  - unfold all_trees. cbn [ps_pool ps_fly].
+    assert (H1' := Permutation_Forall Hp H1).
+    cbn [app] in H1'. inversion H1' as [|? ? Ha H1'']; subst. inversion H1'' as [|? ? Hb H1''']; subst.
+    constructor; [apply inW_merge; assumption|exact H1'''].
+  - intros p. rewrite <- H2. rewrite (osum_perm _ _ (Permutation_map (t_at p) Hp)).
+    unfold all_trees. cbn [ps_pool ps_fly app map osum fold_right].
+    assert (H1' := Permutation_Forall Hp H1).
+    cbn [app] in H1'. inversion H1' as [|? ? Ha H1'']; subst. inversion H1'' as [|? ? Hb _]; subst.
+    rewrite t_merge_at; [|apply Ha|apply Hb]. rewrite oplus_assoc. reflexivity.
+Qed.
+
+Lemma pool_round_inv n tries conc c s : pool_inv n tries s -> pool_inv n tries (pool_round conc c s).
+Proof.
+  intros H. unfold pool_round. apply pool_finish_inv.
+  eapply pool_inv_perm; [apply pool_queue_perm|exact H].
+Qed.
+
+Lemma pool_fold_inv n tries conc sched : forall s, pool_inv n tries s ->
+  pool_inv n tries (fold_left (fun s c => pool_round conc c s) sched s).
+Proof.
+  induction sched as [|c sched IH]; intros s H; [exact H|].
+  cbn. apply IH, pool_round_inv, H.
+Qed.
+
+Lemma pool_parallel conc sched n tries t :
+  Forall (inW n) tries -> pool_run conc sched tries = Some t -> Some t = merge_serial tries.
+Proof.
+  intros Hw. unfold pool_run. destruct tries as [|t0 rest]; [discriminate|].
+  set (s := fold_left _ sched _).
+  assert (Hinv : pool_inv n (t0 :: rest) s).
+  { apply pool_fold_inv. split; unfold all_trees; cbn [ps_pool ps_fly fly_trees flat_map]; rewrite app_nil_r; [exact Hw|reflexivity]. }
+  destruct (ps_pool s) as [|t' [|? ?]] eqn:Ep; try discriminate.
+  destruct (ps_fly s) eqn:Ef; try discriminate.
+  intros [= <-]. cbn [merge_serial]. f_equal.
+  destruct Hinv as [H1 H2]. unfold all_trees in H1, H2. rewrite Ep, Ef in H1, H2. cbn in H1, H2.
+  inversion H1 as [|? ? Ht' _]; subst.
+  inversion Hw as [|? ? Ht0 Hrest]; subst.
+  assert (Hf := fold_merge_inW n rest t0 Ht0 Hrest).
+  apply t_ext.
+  - apply Ht'.
+  - apply Hf.
+  - destruct Ht' as [_ ->], Hf as [_ ->]. reflexivity.
+  - intros p. rewrite (fold_merge_at n p rest t0 Ht0 Hrest). specialize (H2 p).
+    rewrite oplus_none_r in H2. exact H2.
+Qed.
+
+(* the statement is not vacuous: a schedule with one choice per merge always ends with one tree *)
+Definition pool_count (s : pool_state) : nat := (length (ps_pool s) + 2 * length (ps_fly s))%nat.
+
+Lemma pool_queue_count fuel conc : forall s,
+  pool_count (pool_queue fuel conc s) = pool_count s /\
+  (length (ps_fly s) <= length (ps_fly (pool_queue fuel conc s)))%nat.
+Proof.
+  induction fuel as [|fuel IH]; intros s; [split; reflexivity|].
+  cbn [pool_queue]. destruct (ps_pool s) as [|a [|b rest]] eqn:Ep; try (split; reflexivity).
+  destruct (Nat.ltb (length (ps_fly s)) conc); [|split; reflexivity].
+  destruct (IH {| ps_pool := rest; ps_fly := ps_fly s ++ [(a, b)] |}) as [IH1 IH2].
+  rewrite IH1. unfold pool_count in *. cbn [ps_pool ps_fly] in *. rewrite Ep. rewrite app_length in *. cbn [length] in *.
+  split; lia.
+Qed.
+
+Lemma pool_queue_S fuel conc s :
+  pool_queue (S fuel) conc s =
+    match ps_pool s with
+    | a :: b :: rest =>
+        if Nat.ltb (length (ps_fly s)) conc
+        then pool_queue fuel conc {| ps_pool := rest; ps_fly := ps_fly s ++ [(a, b)] |}
+        else s
+    | _ => s
+    end.
+Proof. reflexivity. Qed.
+
+Lemma pool_queue_fly conc s : (1 <= conc)%nat -> (2 <= pool_count s)%nat ->
+  ps_fly (pool_queue (length (ps_pool s)) conc s) <> [].
+Proof.
+  intros Hc Hn. destruct (ps_fly s) as [|j f] eqn:Ef.
+  - unfold pool_count in Hn. rewrite Ef in Hn. cbn in Hn.
+    destruct (ps_pool s) as [|a [|b rest]] eqn:Ep; cbn in Hn; try lia.
+    cbn [length]. rewrite pool_queue_S, Ep, Ef. cbn [length].
+    replace (Nat.ltb 0 conc) with true by (symmetry; apply Nat.ltb_lt; lia).
+    match goal with |- ps_fly (pool_queue ?f ?c ?s') <> [] =>
+      destruct (pool_queue_count f c s') as [_ H] end.
+    intros E. rewrite E in H. cbn in H. lia.
+  - destruct (pool_queue_count (length (ps_pool s)) conc s) as [_ H].
+    rewrite Ef in H. cbn [length] in H. intros E. rewrite E in H. cbn in H. lia.
+Qed.
+
+Lemma pool_round_count conc c s : (1 <= conc)%nat -> (2 <= pool_count s)%nat ->
+  (pool_count (pool_round conc c s) + 1 = pool_count s)%nat.
+Proof.
+  intros Hc Hn. unfold pool_round.
+  destruct (pool_queue_count (length (ps_pool s)) conc s) as [Hq _].
+  assert (Hf := pool_queue_fly conc s Hc Hn).
+  set (s' := pool_queue (length (ps_pool s)) conc s) in *.
+  rewrite <- Hq. unfold pool_finish. destruct (ps_fly s') as [|j0 f] eqn:Ef; [congruence|].
+  rewrite <- Ef. unfold pool_count. cbn [ps_pool ps_fly length].
+  assert (Hi : (Nat.modulo c (length (ps_fly s')) < length (ps_fly s'))%nat).
+  { apply Nat.mod_upper_bound. rewrite Ef. cbn. lia. }
+  pose proof (remove_nth_length _ _ Hi). lia.
+Qed.
+
+Lemma pool_fold_count conc sched : (1 <= conc)%nat -> forall s,
+  pool_count s = S (length sched) ->
+  pool_count (fold_left (fun s c => pool_round conc c s) sched s) = 1%nat.
+Proof.
+  intros Hc. induction sched as [|c sched IH]; intros s Hs; [exact Hs|].
+  cbn [fold_left]. apply IH. cbn [length] in Hs.
+  pose proof (pool_round_count conc c s Hc). lia.
+Qed.
+
+Lemma pool_run_total conc sched tries : (1 <= conc)%nat -> tries <> [] ->
+  length sched = (length tries - 1)%nat -> exists t, pool_run conc sched tries = Some t.
+Proof.
+  intros Hc Hne Hl. unfold pool_run. destruct tries as [|t0 rest]; [congruence|].
+  set (s := fold_left _ sched _).
+  assert (H : pool_count s = 1%nat).
+  { apply pool_fold_count; [exact Hc|]. unfold pool_count. cbn [ps_pool ps_fly length] in *. lia. }
+  unfold pool_count in H.
+  destruct (ps_pool s) as [|t [|? ?]], (ps_fly s) as [|? ?]; cbn [length] in H; try lia.
+  exists t. reflexivity.
+Qed.
+
+(* ------------------------------------------------------------------------------------------ *)
+(* (4) consistency: total = self + children (insert, merge), total >= self + children (clone)   *)
+
+Fixpoint t_relb (R : N -> N -> bool) (t : tnode) : bool :=
+  match t with TNode _ s tot ch => R tot (s + ch_total ch) && forallb (t_relb R) ch end.
+
+Lemma forallb_Forall_ext {A} (f g : A -> bool) l :
+  Forall (fun x => f x = g x) l -> forallb f l = forallb g l.
+Proof. induction 1 as [|x l H _ IH]; cbn; [reflexivity|]. rewrite H, IH. reflexivity. Qed.
+
+Definition geb (tot x : N) : bool := N.leb x tot.
+
+Lemma t_exactb_rel t : t_exactb t = t_relb N.eqb t.
+Proof.
+  induction t as [n s tot ch IH] using tnode_ind'. cbn [t_exactb t_relb]. f_equal.
+  apply forallb_Forall_ext, IH.
+Qed.
+
+Lemma t_subb_rel t : t_subb t = t_relb geb t.
+Proof.
+  induction t as [n s tot ch IH] using tnode_ind'. cbn [t_subb t_relb]. f_equal.
+  apply forallb_Forall_ext, IH.
+Qed.
+
+Lemma ch_total_cons c ch : ch_total (c :: ch) = t_total c + ch_total ch.
+Proof. reflexivity. Qed.
+
+Lemma ch_total_upd l f delta ch :
+  (forall c, t_total (f c) = t_total c + delta) -> ch_total (t_upd l f ch) = ch_total ch + delta.
+Proof.
+  intros Hf. induction ch as [|c ch IH]; cbn [t_upd].
+  - rewrite ch_total_cons, Hf. cbn. lia.
+  - destruct (bcmp (t_name c) l); rewrite !ch_total_cons.
+    + rewrite Hf. lia.
+    + rewrite IH. lia.
+    + rewrite Hf. cbn [t_new t_total]. lia.
+Qed.
+
+Lemma t_insert_path_name p v t : t_name (t_insert_path p v t) = t_name t.
+Proof. destruct t, p; reflexivity. Qed.
 
 Lemma t_insert_path_total p v t : t_total (t_insert_path p v t) = t_total t + v.
 Proof. destruct t, p; reflexivity. Qed.
+
+Lemma t_merge_total d s : t_total (t_merge d s) = t_total d + t_total s.
+Proof. rewrite t_merge_eq. reflexivity. Qed.
+
+Lemma ch_total_merge_ch sch : forall dch, ch_total (merge_ch sch dch) = ch_total dch + ch_total sch.
+Proof.
+  induction sch as [|sc sch IH]; intros dch.
+  - unfold merge_ch. cbn [fold_left]. change (ch_total []) with 0. lia.
+  - unfold merge_ch. cbn [fold_left]. fold (merge_ch sch (t_upd (t_name sc) (fun dc => t_merge dc sc) dch)).
+    rewrite IH, (ch_total_upd _ _ (t_total sc)); [rewrite ch_total_cons; lia|].
+    intros c. apply t_merge_total.
+Qed.
+
+Section Rel.
+  Variable R : N -> N -> bool.
+  Hypothesis R_refl : forall v, R v v = true.
+  Hypothesis R_add : forall x y x' y', R x y = true -> R x' y' = true -> R (x + x') (y + y') = true.
+
+  Lemma t_relb_iff t :
+    t_relb R t = true <->
+    R (t_total t) (t_self t + ch_total (t_ch t)) = true /\ Forall (fun c => t_relb R c = true) (t_ch t).
+  Proof. destruct t. cbn [t_relb t_total t_self t_ch]. rewrite andb_true_iff, forallb_forall, Forall_forall. reflexivity. Qed.
+
+  Lemma t_new_rel n : t_relb R (t_new n) = true.
+  Proof. cbn. rewrite R_refl. reflexivity. Qed.
+
+  Lemma t_insert_path_rel : forall p v t, t_relb R t = true -> t_relb R (t_insert_path p v t) = true.
+  Proof.
+    induction p as [|l p IH]; intros v [n s tot ch] H; apply t_relb_iff in H; cbn [t_total t_self t_ch] in H;
+      destruct H as [H1 H2]; cbn [t_insert_path]; apply t_relb_iff; cbn [t_total t_self t_ch].
+    - split; [|exact H2]. replace (s + v + ch_total ch) with (s + ch_total ch + v) by lia.
+      apply R_add; [exact H1|apply R_refl].
+    - split.
+      + rewrite (ch_total_upd _ _ v); [|intros c; apply t_insert_path_total].
+        replace (s + (ch_total ch + v)) with (s + ch_total ch + v) by lia.
+        apply R_add; [exact H1|apply R_refl].
+      + apply t_upd_Forall; [exact H2| |apply t_new_rel]. intros c Hc. apply IH, Hc.
+  Qed.
+
+  Lemma merge_ch_rel sch :
+    Forall (fun s => forall d, t_relb R d = true -> t_relb R s = true -> t_relb R (t_merge d s) = true) sch ->
+    Forall (fun s => t_relb R s = true) sch -> forall dch,
+    Forall (fun c => t_relb R c = true) dch -> Forall (fun c => t_relb R c = true) (merge_ch sch dch).
+  Proof.
+    induction 1 as [|sc sch Hsc _ IH]; intros Hs dch Hd; [exact Hd|].
+    inversion Hs as [|? ? Hs1 Hs2]; subst.
+    unfold merge_ch. cbn [fold_left]. apply (IH Hs2).
+    apply t_upd_Forall; [exact Hd| |apply t_new_rel]. intros c Hc. apply Hsc; assumption.
+  Qed.
+
+  Lemma t_merge_rel : forall s d, t_relb R d = true -> t_relb R s = true -> t_relb R (t_merge d s) = true.
+  Proof.
+    induction s as [sn ss st sch IH] using tnode_ind'. intros d Hd Hs.
+    rewrite t_merge_eq. apply t_relb_iff. cbn [t_total t_self t_ch].
+    apply t_relb_iff in Hd. destruct Hd as [Hd1 Hd2].
+    apply t_relb_iff in Hs. cbn [t_total t_self t_ch] in Hs. destruct Hs as [Hs1 Hs2].
+    split.
+    - rewrite ch_total_merge_ch.
+      replace (t_self d + ss + (ch_total (t_ch d) + ch_total sch))
+        with ((t_self d + ch_total (t_ch d)) + (ss + ch_total sch)) by lia.
+      apply R_add; assumption.
+    - apply merge_ch_rel; assumption.
+  Qed.
+End Rel.
+
+Lemma eqb_refl' v : N.eqb v v = true. Proof. apply N.eqb_refl. Qed.
+Lemma eqb_add x y x' y' : N.eqb x y = true -> N.eqb x' y' = true -> N.eqb (x + x') (y + y') = true.
+Proof. rewrite !N.eqb_eq. lia. Qed.
+Lemma geb_refl v : geb v v = true. Proof. unfold geb. apply N.leb_refl. Qed.
+Lemma geb_add x y x' y' : geb x y = true -> geb x' y' = true -> geb (x + x') (y + y') = true.
+Proof. unfold geb. rewrite !N.leb_le. lia. Qed.
+
+Lemma t_insert_path_exact p v t : t_exactb t = true -> t_exactb (t_insert_path p v t) = true.
+Proof. rewrite !t_exactb_rel. apply t_insert_path_rel; [apply eqb_refl'|apply eqb_add]. Qed.
+Lemma t_insert_path_sub p v t : t_subb t = true -> t_subb (t_insert_path p v t) = true.
+Proof. rewrite !t_subb_rel. apply t_insert_path_rel; [apply geb_refl|apply geb_add]. Qed.
+Lemma t_merge_exact d s : t_exactb d = true -> t_exactb s = true -> t_exactb (t_merge d s) = true.
+Proof. rewrite !t_exactb_rel. apply t_merge_rel; [apply eqb_refl'|apply eqb_add]. Qed.
+Lemma t_merge_sub d s : t_subb d = true -> t_subb s = true -> t_subb (t_merge d s) = true.
+Proof. rewrite !t_subb_rel. apply t_merge_rel; [apply geb_refl|apply geb_add]. Qed.
+
+Lemma t_insert_exact k v t : t_exactb t = true -> t_exactb (t_insert k v t) = true.
+Proof. apply t_insert_path_exact. Qed.
+Lemma t_insert_sub k v t : t_subb t = true -> t_subb (t_insert k v t) = true.
+Proof. apply t_insert_path_sub. Qed.
+
+Lemma t_exact_sub : forall t, t_exactb t = true -> t_subb t = true.
+Proof.
+  induction t as [n s tot ch IH] using tnode_ind'. cbn [t_exactb t_subb].
+  rewrite !andb_true_iff, !forallb_forall, N.eqb_eq, N.leb_le. intros [H1 H2]. split; [lia|].
+  rewrite Forall_forall in IH. intros c Hc. apply IH; auto.
+Qed.
+
+Lemma t_insert_path_wfb : forall p v t, t_wfb t = true -> t_wfb (t_insert_path p v t) = true.
+Proof.
+  induction p as [|l p IH]; intros v [n s tot ch] H; [exact H|].
+  cbn [t_insert_path]. apply t_wfb_iff. apply t_wfb_iff in H. cbn [t_ch] in *. destruct H as [H1 H2]. split.
+  - apply t_upd_sorted; [|exact H1]. intros c. apply t_insert_path_name.
+  - apply t_upd_Forall; [exact H2| |apply t_new_wfb]. intros c Hc. apply IH, Hc.
+Qed.
+
+Lemma t_insert_wfb k v t : t_wfb t = true -> t_wfb (t_insert k v t) = true.
+Proof. apply t_insert_path_wfb. Qed.
+
+(* every tree built by insertions from the empty tree is well formed and exact *)
+Lemma t_build_ok (ss : list (bytes * N)) :
+  let t := fold_left (fun t kv => t_insert (fst kv) (snd kv) t) ss t_empty in
+  t_wfb t = true /\ t_exactb t = true /\ t_name t = [].
+Proof.
+  cbn zeta. assert (H0 : t_wfb t_empty = true /\ t_exactb t_empty = true /\ t_name t_empty = []) by (repeat split).
+  revert H0. generalize t_empty. induction ss as [|kv ss IH]; intros t H; [exact H|].
+  cbn [fold_left]. apply IH. destruct H as (H1 & H2 & H3). repeat split.
+  - apply t_insert_wfb, H1.
+  - apply t_insert_exact, H2.
+  - unfold t_insert. rewrite t_insert_path_name. exact H3.
+Qed.
+
+(* floor arithmetic of clone *)
+Lemma floor_add a b d : d <> 0 -> a / d + b / d <= (a + b) / d.
+Proof.
+  intros Hd. apply N.div_le_lower_bound; [exact Hd|].
+  pose proof (N.mul_div_le a d Hd). pose proof (N.mul_div_le b d Hd). lia.
+Qed.
+
+Lemma floor_sum m d l : d <> 0 -> sumN (map (fun x => x * m / d) l) <= sumN l * m / d.
+Proof.
+  intros Hd. induction l as [|x l IH]; cbn [map sumN fold_right].
+  - cbn. apply N.le_0_l.
+  - fold (sumN (map (fun x => x * m / d) l)). fold (sumN l).
+    etransitivity; [apply N.add_le_mono_l, IH|].
+    replace ((x + sumN l) * m) with (x * m + sumN l * m) by lia. apply floor_add, Hd.
+Qed.
+
+Lemma t_clone_eq m d t :
+  t_clone m d t = TNode (t_name t) (t_self t * m / d) (t_total t * m / d) (map (t_clone m d) (t_ch t)).
+Proof. destruct t; reflexivity. Qed.
+
+Lemma t_clone_name m d t : t_name (t_clone m d t) = t_name t.
+Proof. rewrite t_clone_eq. reflexivity. Qed.
+
+Lemma ch_total_clone m d ch : ch_total (map (t_clone m d) ch) = sumN (map (fun x => x * m / d) (map t_total ch)).
+Proof.
+  unfold ch_total. rewrite !map_map. f_equal. apply map_ext. intros c. rewrite t_clone_eq. reflexivity.
+Qed.
+
+Lemma t_clone_sub m d : d <> 0 -> forall t, t_subb t = true -> t_subb (t_clone m d t) = true.
+Proof.
+  intros Hd. induction t as [n s tot ch IH] using tnode_ind'. cbn [t_subb t_clone].
+  rewrite !andb_true_iff, !forallb_forall, !N.leb_le. intros [H1 H2]. split.
+  - rewrite ch_total_clone. etransitivity; [apply N.add_le_mono_l, floor_sum, Hd|].
+    fold (ch_total ch). etransitivity; [apply floor_add, Hd|].
+    apply N.div_le_mono; [exact Hd|]. replace (s * m + ch_total ch * m) with ((s + ch_total ch) * m) by lia.
+    apply N.mul_le_mono_r, H1.
+  - intros c' Hc'. apply in_map_iff in Hc'. destruct Hc' as (c & <- & Hc).
+    rewrite Forall_forall in IH. apply IH; auto.
+Qed.
+
+(* (5) clone keeps names and shape, each value becomes floor(v*m/d) *)
+Lemma t_find_clone m d l ch : t_find l (map (t_clone m d) ch) = option_map (t_clone m d) (t_find l ch).
+Proof.
+  induction ch as [|c ch IH]; cbn [map t_find]; [reflexivity|].
+  rewrite t_clone_name. destruct (beqb (t_name c) l); [reflexivity|exact IH].
+Qed.
+
+Definition scale2 (m d : N) (x : N * N) : N * N := (fst x * m / d, snd x * m / d).
+
+Lemma t_clone_at m d : forall p t, t_at p (t_clone m d t) = option_map (scale2 m d) (t_at p t).
+Proof.
+  induction p as [|l p IH]; intros t; rewrite t_clone_eq.
+  - reflexivity.
+  - cbn [t_at t_ch]. rewrite t_find_clone. destruct (t_find l (t_ch t)) as [c|]; cbn [option_map]; [apply IH|reflexivity].
+Qed.
+
+Lemma sorted_names_clone m d ch : sorted_names (map (t_clone m d) ch) = sorted_names ch.
+Proof.
+  induction ch as [|c ch IH]; [reflexivity|].
+  destruct ch as [|c' ch]; [reflexivity|].
+  change (bltb (t_name (t_clone m d c)) (t_name (t_clone m d c')) && sorted_names (map (t_clone m d) (c' :: ch))
+          = bltb (t_name c) (t_name c') && sorted_names (c' :: ch)).
+  rewrite IH, !t_clone_name. reflexivity.
+Qed.
+
+Lemma forallb_map' {A B} (f : A -> B) g l : forallb g (map f l) = forallb (fun x => g (f x)) l.
+Proof. induction l as [|x l IH]; cbn; [reflexivity|]. rewrite IH. reflexivity. Qed.
+
+Lemma t_clone_wfb m d : forall t, t_wfb (t_clone m d t) = t_wfb t.
+Proof.
+  induction t as [n s tot ch IH] using tnode_ind'. cbn [t_clone t_wfb].
+  rewrite sorted_names_clone. f_equal. rewrite forallb_map'. apply forallb_Forall_ext, IH.
+Qed.
+
+Lemma t_clone_size m d : forall t, t_size (t_clone m d t) = t_size t.
+Proof.
+  induction t as [n s tot ch IH] using tnode_ind'. cbn [t_clone t_size]. f_equal.
+  induction IH as [|c ch Hc _ IH']; cbn [map fold_right]; [reflexivity|]. rewrite Hc, IH'. reflexivity.
+Qed.
+
+(* ------------------------------------------------------------------------------------------ *)
+(* corollaries in terms of self / total at a stack, and order independence of the serial fold   *)
+
+Lemma t_merge_self_at a b p : t_wfb a = true -> t_wfb b = true ->
+  t_self_at p (t_merge a b) = t_self_at p a + t_self_at p b.
+Proof.
+  intros Ha Hb. unfold t_self_at. rewrite t_merge_at by assumption.
+  destruct (t_at p a) as [[? ?]|], (t_at p b) as [[? ?]|]; cbn; lia.
+Qed.
+
+Lemma t_merge_total_at a b p : t_wfb a = true -> t_wfb b = true ->
+  t_total_at p (t_merge a b) = t_total_at p a + t_total_at p b.
+Proof.
+  intros Ha Hb. unfold t_total_at. rewrite t_merge_at by assumption.
+  destruct (t_at p a) as [[? ?]|], (t_at p b) as [[? ?]|]; cbn; lia.
+Qed.
+
+(* a stack is present in the merge iff it is present in one of the inputs: "nothing else changes" *)
+Lemma t_merge_at_none a b p : t_wfb a = true -> t_wfb b = true ->
+  (t_at p (t_merge a b) = None <-> t_at p a = None /\ t_at p b = None).
+Proof.
+  intros Ha Hb. rewrite t_merge_at by assumption.
+  destruct (t_at p a) as [[? ?]|], (t_at p b) as [[? ?]|]; cbn; split; try tauto; try discriminate;
+    intros [? ?]; discriminate.
+Qed.
+
+Lemma merge_serial_perm n l l' : Forall (inW n) l -> Permutation l l' -> merge_serial l = merge_serial l'.
+Proof.
+  intros Hl Hp. assert (Hl' : Forall (inW n) l') by (eapply Permutation_Forall; eauto).
+  destruct l as [|t rest], l' as [|t' rest'].
+  - reflexivity.
+  - apply Permutation_nil in Hp. discriminate.
+  - symmetry in Hp. apply Permutation_nil in Hp. discriminate.
+  - cbn [merge_serial]. f_equal.
+    inversion Hl as [|? ? Ht Hrest]; subst. inversion Hl' as [|? ? Ht' Hrest']; subst.
+    assert (H1 := fold_merge_inW n rest t Ht Hrest). assert (H2 := fold_merge_inW n rest' t' Ht' Hrest').
+    apply t_ext; [apply H1|apply H2| |].
+    + destruct H1 as [_ ->], H2 as [_ ->]. reflexivity.
+    + intros p. rewrite (fold_merge_at n p rest t Ht Hrest), (fold_merge_at n p rest' t' Ht' Hrest').
+      apply osum_perm, Permutation_map, Hp.
+Qed.
